@@ -70,6 +70,15 @@ def impl_name(s):
     except Exception as exc:
         return 'err ' + type(exc).__name__
 
+def impl_almost(pair):
+    a, b = pair
+    try:
+        x = L().parse_language(a)
+        y = L().parse_language(b)
+        return f'ok {1 if x.is_almost_equal(y) else 0} {1 if x == y else 0}'
+    except Exception as exc:
+        return 'err ' + type(exc).__name__
+
 def impl_munch(s):
     try:
         return 'ok ' + hexs(L()._munch_language_name(s))
